@@ -1722,6 +1722,11 @@ class Out:
     def __init__(self, text):
         self.text = text
         self.status, self.L, self.E, self.P, self.D, self.cls, self.oracle_fail = "CRASH", None, None, None, None, None, None
+        self.layout_fail = None
+        j = text.find(" ORACLE-FAIL chunked buffer ")
+        if j >= 0:                                  # a non-contiguous layout of the same bytes was answered differently
+            self.layout_fail = text[j + len(" ORACLE-FAIL "):]
+            text = text[:j]
         t = text.split(" ", 4)
         if t[0] == "OK":
             self.status = "OK"
@@ -1878,11 +1883,16 @@ def _line_input(corpus, line):
 def judge(corpus, sizes, line, out_text, feature="plain"):
     """None, or (class, why): the verdict of the property oracles on ONE annotated line, from the
     implementation's output and the reference decoder alone"""
+    if strip_ann(line).split(" ", 1)[0] in ("grp", "grpdec"):
+        return judge_group(corpus, line, out_text)
     a = get_ann(line)
     kind = a.get("k", "fuzz")
     o = Out(out_text)
     if o.status in ("CRASH", "PANIC", "BADCASE"):
         return ("panic" if o.status == "PANIC" else o.status.lower(), "the driver answered: " + out_text[:200])
+    if o.layout_fail:
+        return ("chunked-buffer", "the answer depends on the chunk layout of the input buffer: contiguous %s, %s" % (
+            out_text[:60].split(" ORACLE-FAIL")[0], o.layout_fail[:200]))
     cmd, msg, data, ref = _line_input(corpus, line)
     nbytes = len(data) if isinstance(data, bytes) else len(data[0]) + len(data[1])
     if cmd == "lendelim":
@@ -2106,6 +2116,8 @@ def parse_model_out(msg, text):
 def compare_model(corpus, line, impl_text, model_text):
     """None or a description of the disagreement between the model's and the implementation's answer"""
     t = strip_ann(line).split()
+    if t[0] in ("grp", "grpdec"):
+        return compare_model_group(corpus, line, impl_text, model_text)
     msg = corpus[int(t[1])] if t[0] != "lendelim" else None
     o = Out(impl_text)
     try:
@@ -2148,6 +2160,282 @@ def compare_model(corpus, line, impl_text, model_text):
     return None
 
 
+
+# ======================================================================================
+# 7b. the group codec (pilota::prost::encoding::group) through the hand-written GroupHolder<M>
+#     of the driver: struct GroupHolder<M> { opt: Option<M> /*group 3*/, req: M /*group 4*/,
+#     many: Vec<M> /*group 1000*/, tail: u32 /*1001*/ }   (pilota-build cannot emit group fields)
+# ======================================================================================
+GH_OPT, GH_REQ, GH_MANY, GH_TAIL = 3, 4, 1000, 1001
+_GRP_RE = re.compile(r"^OK L(\d+) E(\S+) P(\d+)(?: I (\S+) (\S+) (\S+) (\d+))? B (?:(\S+) (\S+) (\S+) (\d+)|ERR (\w+))")
+
+
+def ref_group(number, body):
+    return enc_tag(number, WT_SGROUP) + body + enc_tag(number, WT_EGROUP)
+
+
+def _parts_of(opt, req, many, tail):
+    """(opt bytes | None, req bytes, [bytes], int) from the driver's tokens"""
+    return (None if opt == "~" else unhx(opt), unhx(req), [] if many == "~" else [unhx(x) for x in many.split(",")], int(tail))
+
+
+def ref_holder_encode(parts):
+    opt, req, many, tail = parts
+    return ((ref_group(GH_OPT, opt) if opt is not None else b"") + ref_group(GH_REQ, req)
+            + b"".join(ref_group(GH_MANY, b) for b in many) + enc_tag(GH_TAIL, WT_VARINT) + enc_varint(tail))
+
+
+def ref_holder_decode(msg, data, limit=RECURSION_LIMIT):
+    """reference reading of a GroupHolder<msg> encoding -> (opt value | None, req value, [values], tail): the bodies of
+    the group records of one field merge (= concatenate), repeated groups append, unknown fields are skipped"""
+    rd = _Rd(bytes(data))
+    opt, req, many, tail = None, b"", [], 0
+    while rd.more():
+        n, wt = rd.key()
+        if n in (GH_OPT, GH_REQ, GH_MANY):
+            if wt != WT_SGROUP:
+                raise RefError("wiretype", "group field %d with wire type %d" % (n, wt))
+            start = rd.p
+            _skip(rd, n, WT_SGROUP, limit)
+            body = bytes(rd.d[start:rd.p - len(enc_tag(n, WT_EGROUP))])
+            if n == GH_OPT:
+                opt = (opt or b"") + body
+            elif n == GH_REQ:
+                req += body
+            else:
+                many.append(body)
+        elif n == GH_TAIL:
+            tail = _dec_scalar("uint32", wt, rd)
+        else:
+            _skip(rd, n, wt, limit)
+    # a group costs one unit of the nesting budget
+    dec = lambda b: ref_decode(msg, b, limit=limit - 1)
+    return (None if opt is None else dec(opt), dec(req), [dec(b) for b in many], tail)
+
+
+def _holder_sem(msg, parts):
+    """the parts of a holder as values of the reference decoder (map entries have no order)"""
+    opt, req, many, tail = parts
+    return (None if opt is None else ref_decode(msg, opt), ref_decode(msg, req), [ref_decode(msg, b) for b in many], tail)
+
+
+def _holder_diff(a, b):
+    """None, or where two semantic holders differ"""
+    if (a[0] is None) != (b[0] is None):
+        return "the optional group is %s on one side, %s on the other" % ("absent" if a[0] is None else "present", "absent" if b[0] is None else "present")
+    if len(a[2]) != len(b[2]):
+        return "%d repeated groups on one side, %d on the other" % (len(a[2]), len(b[2]))
+    if a[3] != b[3]:
+        return "tail %d vs %d" % (a[3], b[3])
+    for x, y in [(a[0], b[0])] * (a[0] is not None) + [(a[1], b[1])] + list(zip(a[2], b[2])):
+        d = _cmp_strict(x, y)
+        if d:
+            return "a group body differs at %s" % d
+    return None
+
+
+def gen_group_cases(corpus, rng, tier):
+    """grp lines: holders over every corpus message as group body -- empty bodies in optional / required / repeated
+    position included -- ; grpdec lines: reference-built holder encodings in other styles (records shuffled, the optional
+    and the required group split over two records, unknown fields in between)"""
+    cases, kinds = [], {}
+    def add(line, k, **kw):
+        cases.append(ann(line, k=k, **kw)); kinds[k] = kinds.get(k, 0) + 1
+    per = _n(tier, 5, 60)
+    for m in corpus:
+        if m.wrapper is not None:
+            continue
+        empty = default_value(m)
+        can_be_empty = ref_encode(m, empty, rng, PILOTA_LIKE) == b""
+        vals = gen_cover(m, rng)[:3] + [gen_value(m, rng, rng.choice([0, 1, 2]), 0.6) for _ in range(per)]
+        def enc(v):
+            return ref_encode(m, v, rng, rng.choice([CANONICAL, PILOTA_LIKE]))
+        combos = [(None, empty, []), (empty, empty, [empty]), (empty, empty, [empty, empty, empty])]
+        for v in vals:
+            w = rng.choice(vals)
+            combos += [(rng.choice([None, empty, v]), rng.choice([empty, w]), rng.choice([[], [v], [v, empty, w], [empty, v], [w, w, empty, empty]]))]
+        for opt, req, many in combos:
+            tail = rng.choice([0, 1, 127, 128, 300, M32])
+            line = "grp %d %s %s %s %d" % (m.idx, "~" if opt is None else hx(enc(opt)), hx(enc(req)),
+                                            "~" if not many else ",".join(hx(enc(x)) for x in many), tail)
+            if len(line) > 6000:
+                continue
+            add(line, "grp-valid", e=int(can_be_empty))
+        # in direction: other conforming layouts of the same holder
+        for v in vals[:max(2, per // 2)]:
+            w = rng.choice(vals)
+            opt, req, many, tail = rng.choice([None, v]), w, rng.choice([[], [v, w], [empty, v]]), rng.choice([0, 5, 300])
+            recs = []
+            def grp_recs(number, x, split):
+                if split and rng.random() < 0.6:
+                    a, b = split_value(m, x, rng)
+                    return [ref_group(number, ref_encode(m, a, rng, CANONICAL)), ref_group(number, ref_encode(m, b, rng, CANONICAL))]
+                return [ref_group(number, ref_encode(m, x, rng, rng.choice(STYLES)))]
+            groups = []
+            if opt is not None:
+                groups.append(grp_recs(GH_OPT, opt, True))
+            groups.append(grp_recs(GH_REQ, req, False))        # (a split required group: bare fields of the 2nd record win; kept whole)
+            groups.append([r for x in many for r in grp_recs(GH_MANY, x, False)])
+            groups.append([enc_tag(GH_TAIL, 0) + enc_varint(9), enc_tag(GH_TAIL, 0) + enc_varint(tail)])
+            # interleave the per-field record lists keeping each list's order; unknown fields in between
+            il = []
+            idx = [0] * len(groups)
+            while any(i < len(g) for i, g in zip(idx, groups)):
+                k = rng.choice([j for j in range(len(groups)) if idx[j] < len(groups[j])])
+                if rng.random() < 0.3:
+                    il.append(_unknown_record(rng.choice([1, 2, 7, 999, 5000]), rng, 1))
+                il.append(groups[k][idx[k]]); idx[k] += 1
+            data = b"".join(il)
+            if len(data) <= 3000:
+                add("grpdec %d %s" % (m.idx, hx(data)), "grp-in")
+    return cases, kinds
+
+
+def gen_group_malformed(corpus, rng, tier):
+    """grpdec on arbitrary / damaged holder encodings (C10): truncations, byte replacements, wrong end-group numbers,
+    groups nested to depth 1..120, unterminated groups"""
+    cases = []
+    msgs = [m for m in corpus if m.wrapper is None]
+    n = _n(tier, 6, 80)
+    for m in msgs:
+        for _ in range(n):
+            v = gen_value(m, rng, rng.choice([0, 1, 2]), 0.5)
+            body = ref_encode(m, v, rng, CANONICAL)
+            e = ref_holder_encode((rng.choice([None, body]), body, rng.choice([[], [body, b""]]), rng.choice([0, 300])))
+            if len(e) > 1500:
+                continue
+            k = rng.random()
+            if k < 0.3 and len(e) > 1:
+                e = e[:rng.randrange(len(e))]
+            elif k < 0.6 and e:
+                i = rng.randrange(len(e))
+                e = e[:i] + bytes([rng.choice([0x00, 0x07, 0xff, e[i] ^ 0x80, 0x1c, 0x24, 0x1b])]) + e[i + 1:]
+            elif k < 0.7:
+                e = e + enc_tag(GH_OPT, WT_SGROUP) + body + enc_tag(GH_REQ, WT_EGROUP)          # closed by the wrong number
+            elif k < 0.8:
+                e = enc_tag(GH_MANY, WT_SGROUP) + body                                            # unterminated
+            cases.append(ann("grpdec %d %s" % (m.idx, hx(e)), k="grp-fuzz"))
+    m = msgs[0]
+    for d in sorted(set([1, 2, 50, 98, 99, 100, 101, 120] + [rng.randrange(1, 121) for _ in range(6)])):
+        # unknown groups nested d deep inside the required group's body
+        inner = enc_tag(77, WT_SGROUP) * d + enc_tag(77, WT_EGROUP) * d
+        cases.append(ann("grpdec %d %s" % (m.idx, hx(ref_group(GH_REQ, inner))), k="grp-fuzz"))
+    return cases
+
+
+def judge_group(corpus, line, out_text):
+    """verdict on a grp / grpdec line from the implementation's answer and the reference codec alone"""
+    a = get_ann(line)
+    t = strip_ann(line).split()
+    msg = corpus[int(t[1])]
+    o = Out(out_text) if not out_text.startswith("OK") else None
+    if out_text.startswith(("PANIC", "CRASH", "HANG", "BADCASE")):
+        return ("panic" if out_text.startswith("PANIC") else "no-answer", "the driver answered: " + out_text[:200])
+    j = out_text.find(" ORACLE-FAIL ")
+    if j >= 0:
+        what = out_text[j + len(" ORACLE-FAIL "):]
+        return ("chunked-buffer" if what.startswith("chunked buffer") else "group-len", what[:300])
+    if t[0] == "grp":
+        mm = _GRP_RE.match(out_text)
+        if not mm or mm.group(4) is None:
+            return ("group-output", "answer not understood: " + out_text[:160])
+        L, E = int(mm.group(1)), unhx(mm.group(2))
+        inp = _parts_of(t[2], t[3], t[4], t[5])
+        I = _parts_of(*mm.group(4, 5, 6, 7))
+        if (inp[0] is None) != (I[0] is None) or len(inp[2]) != len(I[2]) or inp[3] != I[3]:
+            return ("group-build", "the holder was not built from the parts: " + out_text[:160])
+        try:
+            for x, y in [(inp[0], I[0])] * (inp[0] is not None) + [(inp[1], I[1])] + list(zip(inp[2], I[2])):
+                d = _cmp_strict(ref_decode(msg, x), ref_decode(msg, y))
+                if d and not _fix_negzero(msg, ref_decode(msg, x))[1]:
+                    return ("group-part", "pilota's re-encoding of a part means something else: %s" % d)
+        except RefError as e:
+            return ("ref-bug", "the reference decoder rejects a part: %s" % e)
+        want = ref_holder_encode(I)
+        if E != want:
+            return ("group-encode", "the holder's bytes are not [StartGroup key, body, EndGroup key] per group field: %s written, %s expected" % (hx(E)[:160], hx(want)[:160]))
+        if L != len(E):
+            return ("encoded-len", "encoded_len() = %d but %d bytes were written" % (L, len(E)))
+        if mm.group(12) is not None:
+            return ("group-roundtrip", "decoding the holder's own bytes failed: ERR " + mm.group(12))
+        B = _parts_of(*mm.group(8, 9, 10, 11))
+        try:
+            d = _holder_diff(_holder_sem(msg, I), _holder_sem(msg, B))
+        except RefError as e:
+            return ("encode-invalid", "a group body pilota wrote is rejected by the reference decoder: %s" % e)
+        if d:
+            return ("group-roundtrip", "round trip (written -> read back) changed the value: " + d)
+        return None
+    # grpdec
+    try:
+        ref = ("ok", ref_holder_decode(msg, unhx(t[2])))
+    except RefError as e:
+        ref = ("err", e.cls)
+    if out_text.startswith("ERR"):
+        if a.get("k") == "grp-in":
+            return ("rejects-valid", "a conforming holder encoding is rejected: " + out_text[:100])
+        return None
+    mm = _GRP_RE.match(out_text)
+    if not mm:
+        return ("group-output", "answer not understood: " + out_text[:160])
+    L, E = int(mm.group(1)), unhx(mm.group(2))
+    if L != len(E):
+        return ("encoded-len", "encoded_len() = %d but %d bytes were written" % (L, len(E)))
+    if a.get("k") == "grp-in":
+        if ref[0] != "ok":
+            return ("ref-bug", "the reference holder decoder rejects its own input: " + ref[1])
+        B = _parts_of(*mm.group(8, 9, 10, 11))
+        want = ref[1]
+        try:
+            got = (None if B[0] is None else ref_decode(msg, B[0]), ref_decode(msg, B[1]), [ref_decode(msg, b) for b in B[2]], B[3])
+        except RefError as e:
+            return ("encode-invalid", "a group body pilota wrote is rejected by the reference decoder: %s" % e)
+        if (got[0] is None) != (want[0] is None) or len(got[2]) != len(want[2]) or got[3] != want[3]:
+            return ("group-decode", "presence / count / scalar differ from the reference reading")
+        for x, y in [(want[0], got[0])] * (want[0] is not None) + [(want[1], got[1])] + list(zip(want[2], got[2])):
+            d = compare(x, y)
+            if d and not _fix_negzero(msg, x)[1]:
+                return ("group-decode", "a group body differs from the reference reading at %s" % d)
+    return None
+
+
+def compare_model_group(corpus, line, impl_text, model_text):
+    """implementation vs model on a grp / grpdec line: outcome, error class, L, and the values (bytes are not compared:
+    the entries of a hash map are written in the iteration order of that map instance)"""
+    def cut(s):
+        j = s.find(" ORACLE-FAIL")
+        return s[:j] if j >= 0 else s
+    a, b = cut(impl_text), cut(model_text)
+    if a.split(" ", 1)[0] != b.split(" ", 1)[0]:
+        return "implementation `%s` vs model `%s`" % (a[:120], b[:120])
+    if a.startswith("ERR"):
+        return None if a.split()[1] == b.split()[1] else "error class %s vs model %s" % (a.split()[1], b.split()[1])
+    if not a.startswith("OK"):
+        return None
+    msg = corpus[int(strip_ann(line).split()[1])]
+    ta, tb = a.split(), b.split()
+    if ta[1] != tb[1]:
+        return "%s vs model %s" % (ta[1], tb[1])
+    try:
+        ha, hb = ref_holder_decode(msg, unhx(ta[2][1:])), ref_holder_decode(msg, unhx(tb[2][1:]))
+        d = _holder_diff(ha, hb)
+        if d:
+            return "the bytes written mean different holders: " + d
+        def back(tk):
+            k = tk.index("B")
+            return tk[k + 1:k + 5]
+        pa, pb = back(ta), back(tb)
+        if (pa[0] == "ERR") != (pb[0] == "ERR"):
+            return "read back: %s vs model %s" % (" ".join(pa[:2]), " ".join(pb[:2]))
+        if pa[0] != "ERR":
+            d = _holder_diff(_holder_sem(msg, _parts_of(*pa)), _holder_sem(msg, _parts_of(*pb)))
+            if d:
+                return "read back: " + d
+    except (RefError, ValueError, IndexError) as e:
+        return "cannot compare: %r" % (e,)
+    return None
+
+
 # what the model runner understands beyond `dec` / `merge` on corpus messages (the pb builder flips
 # these when the runner learns more); decq / mergeq are sent to the model as dec / merge
 MODEL_SUPPORTS = dict(wrappers=True, declen=True, lendelim=True)
@@ -2159,6 +2447,8 @@ MODEL_STATS = dict(lines=0, skipped_long=0)
 def model_line(corpus, line):
     """the line the model runner gets for an annotated driver line, or None if it cannot take it"""
     t = strip_ann(line).split()
+    if t[0] in ("grp", "grpdec"):
+        return " ".join(t)
     if t[0] == "lendelim":
         return " ".join(t) if MODEL_SUPPORTS["lendelim"] else None
     if corpus[int(t[1])].wrapper is not None and not MODEL_SUPPORTS["wrappers"]:
@@ -2306,8 +2596,13 @@ def run_c05(chk, prop, corpus, gen_bins, model_runner, rng, tier, replay=None):
                 cases.append(ann("dec %d %s" % (m.idx, hx(ref_encode(m, v, rng, st))), k="valid", s=st.name))
                 nt.append(v != default_value(m))
                 positions(m, v, acc)
+        gcases, gkinds = gen_group_cases(corpus, rng, tier)
+        cases += gcases; nt += [True] * len(gcases)
+        acc_g = gkinds
     dist = dict(positions=_pos_table(acc), messages=len(corpus),
-                rule_note="k=valid lines + a second pass decoding pilota's own bytes")
+                rule_note="k=valid lines + a second pass decoding pilota's own bytes; grp / grpdec lines = the group codec through GroupHolder<M>")
+    if replay is None:
+        dist["group_codec"] = acc_g
     return _finish(chk, corpus, gen_bins, model_runner, cases, nt, True, dist)
 
 
@@ -2336,6 +2631,10 @@ def run_c06(chk, prop, corpus, gen_bins, model_runner, rng, tier, replay=None):
                     styles[st.name] = styles.get(st.name, 0) + 1
                     cases.append(ann("dec %d %s" % (m.idx, hx(e)), k="valid", s=st.name))
                     nt.append(v != default_value(m))
+        gcases, gkinds = gen_group_cases(corpus, rng, tier)
+        gsel = [c for c in gcases if get_ann(c).get("k") == "grp-in"]
+        cases += gsel; nt += [True] * len(gsel)
+        styles["group-holder-in"] = len(gsel)
     missing = ["%s/%s" % p for p in REQUIRED_POSITIONS if not acc.get(p)] if replay is None else []
     dist = dict(positions=_pos_table(acc), positions_missing=missing, styles=styles, messages=len(corpus))
     return _finish(chk, corpus, gen_bins, model_runner, cases, nt, False, dist)
@@ -2565,6 +2864,8 @@ def run_c10(chk, prop, corpus, gen_bins, model_runner, rng, tier, replay=None):
         kinds = {}
     else:
         cases, kinds = _c10_cases(corpus, rng, tier)
+        g = gen_group_malformed(corpus, rng, tier)
+        cases += g; kinds["group-holder"] = len(g)
     nt = [len(strip_ann(c)) > 12 for c in cases]
     return _finish(chk, corpus, gen_bins, model_runner, cases, nt, False, dict(kinds=kinds), suppress=ROUNDTRIP_ONLY)
 
